@@ -49,6 +49,7 @@ type cStep struct {
 	Wire []cPkt  `json:"wire"`
 	Done []int   `json:"done"`
 	Disp []cDisp `json:"disp"`
+	Lost bool    `json:"lost"`
 }
 
 var clientSeq uint64
@@ -450,6 +451,22 @@ func cmdClientReplay(a Args) {
 			}
 			m := Mismatch{What: d, Tag: tag, Replay: map[string]interface{}{"behaviour": acts}}
 			res.mismatch(m)
+		} else if dev {
+			// the code did what the specification WITH the named deviation predicts; if the behaviour
+			// contains an acknowledgement processed between write and register, the completion was lost:
+			// that is the known finding, observed once more
+			for _, s := range steps {
+				if s.Lost {
+					var acts []string
+					for _, x := range steps {
+						j, _ := json.Marshal(x.A)
+						acts = append(acts, string(j))
+					}
+					res.mismatch(Mismatch{What: "an acknowledgement processed between write and register of its request is lost: the completion never fires and the late entry blocks its queue",
+						Tag: "C12", Known: "register-after-write", Replay: map[string]interface{}{"behaviour": acts}})
+					break
+				}
+			}
 		}
 		if len(res.Samples) < 2 && len(steps) >= 4 {
 			var acts []string
@@ -549,7 +566,76 @@ func cmdClientConnect(a Args) {
 	res.emit()
 }
 
+// fwdids: packet identifiers of requests simultaneously in flight from the broker to one subscriber.
+// Two publishers use the same identifier towards a QoS 1 subscriber that withholds its acknowledgements.
+func cmdFwdIDs(a Args) {
+	res := newResult()
+	for rep := 0; rep < a.num("reps", 5); rep++ {
+		res.Evaluations++
+		r := newBrokerRun("mockSuccess", 2)
+		fr := &faultRun{r: r, cl: map[string]*fClient{}}
+		sub, e := fr.connect("S", "idsub", "ids/#")
+		if e != "" {
+			res.Notes = append(res.Notes, e)
+			res.Counts["infra"]++
+			r.cleanup()
+			continue
+		}
+		p1, _ := fr.connect("P", "idp1")
+		p2, _ := fr.connect("W1", "idp2")
+		for k, p := range []*fClient{p1, p2, p1} {
+			id := 7
+			if k == 2 {
+				id = 8
+			}
+			fr.write(p, pkt(0x32, append(append(lp([]byte(fmt.Sprintf("ids/%d", k))), byte(id>>8), byte(id)), 'x')), time.Second)
+		}
+		var ids []int
+		deadline := time.After(3 * time.Second)
+	loop:
+		for len(ids) < 3 {
+			select {
+			case p := <-sub.rx:
+				if p.first>>4 == 3 {
+					ids = append(ids, decodeRaw(p).ID)
+				}
+			case <-deadline:
+				break loop
+			}
+		}
+		res.Steps += len(ids)
+		bad := ""
+		known := ""
+		seen := map[int]bool{}
+		for _, id := range ids {
+			if id <= 0 {
+				bad = fmt.Sprintf("a QoS 1 PUBLISH was forwarded with packet identifier %d", id)
+			} else if seen[id] {
+				bad = fmt.Sprintf("two unacknowledged QoS 1 PUBLISH packets on one subscriber connection carry the same packet identifier %d (identifiers seen: %v)", id, ids)
+				if id == 7 {
+					known = "forwarded-id" // exactly the named deviation: the publisher's identifier is kept
+				}
+			}
+			seen[id] = true
+		}
+		if len(ids) < 3 {
+			bad, known = fmt.Sprintf("only %d of 3 QoS 1 deliveries arrived", len(ids)), ""
+		}
+		if bad != "" {
+			res.mismatch(Mismatch{What: bad, Tag: "C12", Known: known, Replay: map[string]interface{}{"publishers": "two publishers, QoS 1, identifiers 7, 7, 8; subscriber withholds PUBACK", "ids": ids}})
+		}
+		for _, f := range fr.cl {
+			f.cut = true
+			f.c.Close()
+		}
+		r.cleanup()
+	}
+	res.Samples = append(res.Samples, "two publishers send QoS 1 PUBLISH id 7 each, then id 8; the subscriber does not acknowledge")
+	res.emit()
+}
+
 func init() {
+	commands["fwdids"] = cmdFwdIDs
 	commands["clientreplay"] = cmdClientReplay
 	commands["clientconnect"] = cmdClientConnect
 }
